@@ -41,7 +41,8 @@ func (p *BaseFailurePolicy[R]) HandleErrorTypes(errs ...any) {
 
 func (p *BaseFailurePolicy[R]) HandleResult(result R) {
 	p.failureConditions = append(p.failureConditions, func(r R, err error) bool {
-		return reflect.DeepEqual(r, result)
+		// Only considered when a result is returned, not when an error is returned
+		return err == nil && reflect.DeepEqual(r, result)
 	})
 }
 
